@@ -7,6 +7,7 @@ import (
 	"encoding/json"
 	"fmt"
 	"math/rand"
+	"net/http"
 	"os"
 	"regexp"
 	"strings"
@@ -187,6 +188,17 @@ func synOne(text string, tr *traceWriter) {
 			e["reparse_ok"] = true
 			e["canon2"] = chars(r2.String())
 			e["toks2"] = astToks(r2)
+		}
+		// a third copy is handed to a route tree BEFORE it is rendered for the first time (what an application does):
+		// using a parsed route does not change what it renders to, nor its structure
+		if r3, err3 := synParser.Parse(text); err3 == nil && r3 != nil {
+			func() {
+				defer func() { _ = recover() }()
+				_, _ = route.AddRoute(route.NewTree(), r3, func(http.ResponseWriter, *http.Request, route.Params) {})
+			}()
+			if after := r3.String(); after != canon || strings.Join(astToks(r3), "\x00") != strings.Join(astToks(r), "\x00") {
+				e["canon2"] = chars("<changed by AddRoute> " + after)
+			}
 		}
 	}()
 	tr.emit(e)
